@@ -54,6 +54,17 @@ func (vc *VC) funcConst(f *ssa.Function) Term {
 	if !vc.uf[name] {
 		vc.uf[name] = true
 		vc.constDecls = append(vc.constDecls, fmt.Sprintf("(declare-const %s Fn)", name))
+		// needswrite(f): the contract of f demands a non-static context (a requires clause labelled
+		// "notstatic"); known for every function under contract, unknown otherwise
+		if con := vc.P.contractOf(f); con != nil {
+			nw := "false"
+			for _, r := range con.Requires {
+				if r.Label == "notstatic" {
+					nw = "true"
+				}
+			}
+			vc.needsWriteAxioms = append(vc.needsWriteAxioms, fmt.Sprintf("(assert (= (needswrite %s) %s))", name, nw))
+		}
 	}
 	return mk(name, s)
 }
@@ -281,6 +292,18 @@ func (vc *VC) instr(fr *Frame, st *State, ins ssa.Instruction) {
 		// closure value: opaque function value; bindings are remembered for inlining
 		t := vc.declFresh("closure", vc.opaqueSort("Fn"))
 		vc.assume(st, tNot(tEq(t, vc.zeroOfSort(t.T, nil))))
+		if cf, ok := x.Fn.(*ssa.Function); ok {
+			if con := vc.P.contractOf(cf); con != nil {
+				nw := "false"
+				for _, r := range con.Requires {
+					if r.Label == "notstatic" {
+						nw = "true"
+					}
+				}
+				vc.needNeedsWriteDecl()
+				vc.assume(st, mk(fmt.Sprintf("(= (needswrite %s) %s)", t.S, nw), sortBool))
+			}
+		}
 		vc.closures[t.S] = x
 		var bs []Val
 		for _, b := range x.Bindings {
@@ -700,6 +723,10 @@ func (vc *VC) unop(fr *Frame, st *State, x *ssa.UnOp) {
 		t := vc.loadPlace(st, v.P)
 		t = vc.named(fr, x, t)
 		vc.assumeLoaded(st, t, x.Type())
+		if v.P.Kind == BGlobal && strings.HasPrefix(v.P.Comp, "GC:") && isPointer(x.Type()) && vc.topEntry.T != nil {
+			// what a constant global points to was allocated before this function was entered
+			vc.assume(st, mk(fmt.Sprintf("(< %s %s)", t.S, vc.topEntry.S), sortBool))
+		}
 		vc.setVal(fr, x, vc.mkVal(t, x.Type()))
 	case token.NOT:
 		vc.setVal(fr, x, Val{T: tNot(v.T)})
